@@ -28,6 +28,10 @@ func runC17(e *Env) {
 	r.Rule("C17.R1", "locks", "Router.z / defaultHandler only under Router.m", 14)
 	r.Rule("C17.R2", "flows", "anchored pattern, literals quoted", 4)
 	r.Rule("C17.R3", "paths", "longest match selection, full scan, default otherwise, single dispatch", 5)
+	r.Rule("C17.R4", "flows", "every request gets route parameters of its own (fresh allocation per call, nothing carried over from an earlier request)", 1)
+	if e.want("C17.R4") {
+		c17FreshParams(e)
+	}
 	if e.want("C17.R1") {
 		for _, f := range methodsOf(e, "C17.R1", "mux.Router") {
 			la := core.AnalyzeLocks(f)
@@ -361,4 +365,46 @@ func reaches(from, to *ssa.BasicBlock) bool {
 		stack = append(stack, b.Succs...)
 	}
 	return false
+}
+
+// c17FreshParams: the adapter that turns a router into a transport handler gives every request a RouteParams value allocated
+// in that very call. Match only adds the matched route's variables to Vars; a recycled value would keep another request's.
+func c17FreshParams(e *Env) {
+	rule := "C17.R4"
+	f := e.fn(rule, "mux.ToHandler")
+	if f == nil {
+		return
+	}
+	n := 0
+	for _, g := range core.WithAnon(f) {
+		core.Instrs(g, func(in ssa.Instruction) {
+			st, ok := in.(*ssa.Store)
+			if !ok {
+				return
+			}
+			own, fl, isF := core.FieldOf(st.Addr)
+			if !isF || fl != "RouteParams" || !strings.HasSuffix(own, "mux.Message") {
+				return
+			}
+			n++
+			v := core.Resolve(core.Unwrap(st.Val))
+			a, isAlloc := v.(*ssa.Alloc)
+			fresh := isAlloc && a.Parent() == g
+			if fresh {
+				// and nothing but zero-value initialisation is stored into it before the hand-over (no carried-over Vars)
+				for _, s2 := range core.StoresToCell(a) {
+					if c, isC := s2.Val.(*ssa.Const); !isC || !c.IsNil() && c.Value != nil {
+						_, isField := s2.Addr.(*ssa.FieldAddr)
+						if isField {
+							fresh = false
+						}
+					}
+				}
+			}
+			e.R.Check(fresh, rule, core.FnName(g)+":fresh-route-params", e.pos(st), "RouteParams is allocated in the call that serves the request", "the request's RouteParams is not a fresh allocation of this call (pooled, shared or pre-filled): variables of an earlier request's route leak into this one")
+		})
+	}
+	if n == 0 {
+		e.R.Undecided(rule, "mux.ToHandler:fresh-route-params", e.fpos(f), "no store to Message.RouteParams found")
+	}
 }
